@@ -24,6 +24,10 @@ FixedTargets == { W3("a", <<"-", "-", "-">>, "b"), W3("a", <<".", ".", ".">>, "b
 Rep(c, k) == [i \in 1..k |-> c]
 LongTargets == UNION { { Rep("a", k) \o <<"#", "q">>, Rep("a", k) \o <<":", "q">>, Rep("a", k) \o <<" ", "b">>, Rep("a", k) \o <<"\t", "b">>, Rep("a", k - 1) \o <<"<u233>", "#", "q">> } :
                       k \in {14, 15, 16, 17, 30, 31, 32, 33, 126, 127, 128, 129, 254, 255, 256, 257} }
+\* folds next to blanks: blanks written as escapes around a fold, padding before a break followed by empty lines and interior blanks
+FoldTargets == { <<"a", " ", " ", "b">>, <<"a", " ", " ", " ", "b">>, <<"a", " ", "\t", "b">>, <<"a", "\t", " ", "b">>, <<"a", "\n", "b", " ", "c">>, <<"a", "\n", "\n", "b", " ", "c">>,
+                 <<"a", " ", "b", "\n", "c", " ", "d">>, <<"a", "\n", "b", " ", " ", "c">>, <<"a", " ", "b", " ", "c", " ", "d">>, <<"a", " ", " ", "b", " ", "c">> }
+InitFold == t \in FoldTargets /\ phase = "grow" /\ style = "" /\ ctxn = "" /\ ch = <<>> /\ eb = <<>> /\ ci = 0 /\ pad = 0
 InitLong == t \in LongTargets /\ phase = "grow" /\ style = "" /\ ctxn = "" /\ ch = <<>> /\ eb = <<>> /\ ci = 0 /\ pad = 0
 InitFixed == t \in FixedTargets /\ phase = "grow" /\ style = "" /\ ctxn = "" /\ ch = <<>> /\ eb = <<>> /\ ci = 0 /\ pad = 0
 NonDefault == Cardinality({i \in 1..Len(ch) : ch[i] # 0 \/ eb[i] # 0})
